@@ -212,6 +212,8 @@ def quantifier_obj(vm, qcls, constraint, with_var):
     if with_var:
         var_id = 7
         var = vm.alloc(cls(vm, SYM, "Variable"), {"_id_": var_id}, tag="var")
+        HV_ = cls(vm, "krrood.entity_query_language.hashed_data", "HashedValue")
+        var.fields["_unique_variables_"] = PyList([vm.alloc(HV_, {"value": var, "id_": var_id})])     # the variables the node ranges over: itself
     stream, n = child_stream(vm, var_id)
     child = vm.alloc(cls(vm, SYM, "QueryObjectDescriptor"), {"_var_": var, "selected_variables": PyList([var] if var is not None else [])}, tag="child")
     child.fields["ghost_stream"] = stream
@@ -339,6 +341,23 @@ def h_the_evaluate_stream(with_var):
         c.fields["ghost_lower"] = z3.IntVal(1)
         c.fields["ghost_upper"] = z3.IntVal(1)
         q, n = quantifier_obj(vm, "The", c, with_var)
+        if ctx.choice(2, "asked-before-under-other-bindings") == 1:
+            # the(...) inside an enclosing query is asked once per binding of that query: whatever it found for an EARLIER binding
+            # (here: exactly one solution, consumed completely) says nothing about this one
+            HV = cls(vm, "krrood.entity_query_language.hashed_data", "HashedValue")
+            main_stream = q.fields["_child_"].fields["ghost_stream"]
+            first_stream, n0 = child_stream(vm, 7 if with_var else None)
+            ctx.assume(n0 == 1)
+            q.fields["_child_"].fields["ghost_stream"] = first_stream
+            ctx.ghost["yielded"] = 0
+            earlier = make_dict([(9, vm.alloc(HV, {"value": SInt(ctx.fresh_int("outer")), "id_": 5}, tag="earlier-outer-binding"))])
+            enclosing = vm.alloc(cls(vm, SYM, "SymbolicExpression"), {"_id_": 99, "_is_false_": False}, tag="enclosing-query")
+            for _ in vm.iterate(vm.call(vm._getattr(q, "_evaluate__"), [earlier], {"parent": enclosing})):
+                ctx.ghost_add("yielded")
+            ctx.cover("asked-twice")
+            q.fields["_child_"].fields["ghost_stream"] = main_stream
+            for k in [k for k in ctx.ghost if k == "yielded" or (isinstance(k, tuple) and k[0] == "consumed")]:
+                del ctx.ghost[k]
         consume_and_check(vm, q, n, z3.IntVal(1), z3.IntVal(1), "The._evaluate__", the=True)
     s = make_spec()
     # the real Exactly.assert_satisfaction body runs here (fields ghost_* are only read by the invariant)
